@@ -8,7 +8,7 @@ TSAN = ["-fsanitize=thread", "-g"]
 DRIVERS = [
     dict(name="mt_verif32", src="mt.cpp", defines=["LIFE_VERIF"], ops=["mt32"]),
     dict(name="mt_noop", src="mt.cpp", defines=["LIFE_NOOP"], ops=["mtn"]),
-    dict(name="mt_verif32_tsan", src="mt.cpp", defines=["LIFE_VERIF", "LIFE_NO_FIXED_BASE"], ops=["tsan-mt32"], flags=TSAN),
+    dict(name="mt_verif32_tsan", src="mt.cpp", defines=["LIFE_VERIF", "LIFE_VERIF16", "LIFE_NO_FIXED_BASE"], ops=["tsan-mt32"], flags=TSAN),
     dict(name="mt_noop_tsan", src="mt.cpp", defines=["LIFE_NOOP", "LIFE_NO_FIXED_BASE"], ops=["tsan-mtn"], flags=TSAN),
 ]
 # operations a thread performs on its own objects 0..2 (no destroyed-and-recreated registrations: that is D12, C14's finding)
@@ -35,9 +35,9 @@ def history(rng, n):
 def gen_cases(tier, rng):
     q = tier == "quick"
     cases = []
-    for op, reps in (("mt32", 8 if q else 60), ("mtn", 8 if q else 60)):
+    for op, reps in (("mt32", 20 if q else 100), ("mtn", 20 if q else 100)):
         for nth in (2, 3, 4, 8, 16):
-            for _ in range(8 if q else 120):
+            for _ in range(16 if q else 200):
                 hs = [" ".join(history(rng, rng.randrange(4, 18))) for _ in range(nth)]
                 cases.append("%s %d | %s" % (op, reps, " | ".join(hs)))
         # every thread hammers create / example lookup / destroy: overlapping list updates and scans
@@ -83,7 +83,7 @@ def NONTRIVIAL(case, model, cls):
 RULE = ("2, 3, 4, 8 and 16 threads, each running its own random history (4..17 operations from: create with and without injected failure, destroy, malloc, free, example-based pointer "
         "translation into its own regions, callback registration/unregistration, guest calls through registered entry points and raw slots, by-name and internal symbol lookups, owner queries) "
         "on its own three sandbox objects of verif32 (real regions, finder-based translation) and of rlbox_noop_sandbox; all threads start together and yield/spin pseudo-randomly between "
-        "operations; every experiment is repeated 8 (quick) / 60 (thorough) times and must give the same per-thread outcomes every time, equal to the SOLO run of each thread's history in the "
+        "operations; every experiment is repeated 20 (quick) / 100 (thorough) times and must give the same per-thread outcomes every time, equal to the SOLO run of each thread's history in the "
         "sequential model; plus create/lookup/destroy hammering by 2/4/16 threads. A third of the experiments (quick; all in thorough) are re-run under ThreadSanitizer; any race report is a violation.")
 TRUSTED = ["model coq/Threads.v hand-written; its sequential action semantics is the World model of C14 (tied there); schedules are explored by the OS scheduler plus injected yields, not enumerated",
            "ThreadSanitizer (g++ 12) for the atomicity assumption", "the harness back end's own registry of live regions is mutex-protected harness code"]
